@@ -33,6 +33,10 @@ ASSUMPTIONS = [
 ADOPT = "<adopt>"  # twin cell whose value the property leaves open; filled from the library on construction
 OFFS = [2.25, -1.5, 0.0, 0.0]  # unsorted, negative, fractional, duplicates
 BOUNDS = [-1.5, 0.0, 1.0, 2.25, 3.75]
+TENTH_OFFS = [0.1, 0.7, 1000 / 3, 0.1]
+TENTH_LENS = [0.2, 0.1, 0.1, 0.7]
+# bounds one ulp around the tails/heads of those rows
+TENTH_BOUNDS = [0.1, 0.3, 0.1 + 0.2, 0.7999999999999999, 0.8, 1000 / 3 + 0.1]
 
 
 def bound(tier, seed):
@@ -136,6 +140,13 @@ def construct(cls, ctor):
             offs = sorted(offs)  # built in time order: the state a chart read from a file is in
         kws = [mk_kwargs(cls, o, i) for i, o in enumerate(offs)]
         return cls([ic(**copy.deepcopy(k)) for k in kws]), [twin_row(k) for k in kws]
+    if ctor == "tenths":
+        # values that are not exact in binary (tenths, a third): 0.1 + 0.2 is not 0.3; the tail of a hold is offset + length
+        kws = [mk_kwargs(cls, o, i) for i, o in enumerate(TENTH_OFFS)]
+        for kw, ln in zip(kws, TENTH_LENS):
+            if "length" in kw:
+                kw["length"] = ln
+        return cls([ic(**copy.deepcopy(k)) for k in kws]), [twin_row(k) for k in kws]
     kws = [mk_kwargs(cls, o, i) for i, o in enumerate(OFFS)]
     if ctor == "items4":
         return cls([ic(**copy.deepcopy(k)) for k in kws]), [twin_row(k) for k in kws]
@@ -179,8 +190,9 @@ def adopt(l, tw):
 
 
 # ---- operations -------------------------------------------------------------------------------------
-def operations(cls, tier):
+def operations(cls, tier, bounds=None):
     hold = is_hold(cls)
+    BOUNDS_ = bounds or BOUNDS
     ops = [("sorted", False), ("sorted", True), ("deepcopy",)]
     for i in (1, 2):
         for s in (False, True):
@@ -191,7 +203,7 @@ def operations(cls, tier):
     ops.append(("append_empty", False))
     ops.append(("append_empty", True))
     ops.append(("empty_append", False))
-    for b in BOUNDS:
+    for b in BOUNDS_:
         for inc in (False, True):
             if hold:
                 for flag in (False, True):
@@ -200,7 +212,7 @@ def operations(cls, tier):
             else:
                 ops.append(("after", b, inc))
                 ops.append(("before", b, inc))
-    for lo, hi in ((-1.5, 2.25), (0.0, 0.0), (0.0, 3.75), (1.0, 0.0)):
+    for lo, hi in ((-1.5, 2.25), (0.0, 0.0), (0.0, 3.75), (1.0, 0.0)) if bounds is None else ((0.1, 0.1 + 0.2), (0.3, 0.8), (0.1 + 0.2, 0.7999999999999999), (0.1, 1000 / 3 + 0.1)):
         for ends in ((True, False), (False, True), (True, True), (False, False)):
             if hold:
                 for head, tail in ((True, False), (False, True), (True, True), (False, False)):
@@ -419,7 +431,7 @@ def roots(tier, seed):
         if not usable(cls):
             continue
         big = tier == "thorough" or name.rsplit(".", 1)[-1] in ("OsuHitList", "SMHoldList", "QuaBpmList", "BMSHitList")
-        for ctor in CTORS + ["items40", "sorted40"] + (["items1500", "sorted1500"] if big else []):
+        for ctor in CTORS + ["tenths", "items40", "sorted40"] + (["items1500", "sorted1500"] if big else []):
             out.append(dict(cls=name, ctor=ctor))
     return out
 
@@ -545,7 +557,7 @@ def explore(root, tier, ctx):
                   case=dict(cls=name, history=[ctor]), observed=f"{type(e).__name__}: {e}"[:300], expected="a list")
         return
     ctx.passed("ctor.raises")
-    ops = operations(cls, tier)
+    ops = operations(cls, tier, bounds=TENTH_BOUNDS if ctor == "tenths" else None)
     # thorough depth 3 is only affordable from the richest start state; the others stay at depth 2
     if tier == "thorough" and ctor not in ("items4", "empty3", "from_dict_rows"):
         depth = 2
